@@ -10,7 +10,10 @@
    parser (no out-of-range index, termination within 2*lines+1 steps) on every byte string, the size bounds of
    readUntil and of every assertion a Decoder.Decode call hands on, and that Decoder.Decode never panics (the negative
    body-length panic found by this check is repaired in /repo, commit 94ffaa1).
-   Not proved (monitored on the implementation by the differential run): the content/signature/body splitting of a
+   Not proved (monitored on the implementation by the differential run): that the result of the stream decoder does not
+   depend on how the underlying reader splits the bytes (the model abstracts bufio.Reader.Peek as delivering the requested
+   bytes; the driver reads every boundary-placed stream through readers handing out 1, 2, 3, 7, B-1, B, B+1 or random
+   numbers of bytes per Read, also with the last bytes delivered together with EOF), the content/signature/body splitting of a
    whole encoded assertion, the per-type checks of assemble, and absence of hangs in the real decoder. *)
 From Coq Require Import List NArith ZArith Bool String.
 Import ListNotations.
@@ -52,6 +55,14 @@ Theorem C20_read_until_bound : forall fuel size maxSize d buf d',
   read_until fuel size maxSize d = (RFound buf, d') -> lenN buf <= N.max size maxSize.
 Proof. exact read_until_bound. Qed.
 Print Assumptions C20_read_until_bound.
+
+(* the loop of readUntil as written in Go searches only buf[last:] with last = size - len(delim) + 1 of the previous round;
+   that overlap loses no delimiter: for every input it finds exactly what a search of the whole buffer finds (a delimiter
+   straddling two rounds included).  All other theorems are stated on the whole-buffer form. *)
+Theorem C20_read_until_overlap : forall fuel size maxSize d,
+  1 <= size -> read_until_go fuel 0 size maxSize d = read_until fuel size maxSize d.
+Proof. exact read_until_overlap. Qed.
+Print Assumptions C20_read_until_overlap.
 
 Theorem C20_limits : forall lim d p d',
   stream_decode lim d = (SOk p, d') ->
@@ -98,6 +109,9 @@ Proof. vm_compute. reflexivity. Qed.
 Example C20_ex_reject : parse_headers (bs "a:" ++ [10] ++ bs "  -") = Err.
 Proof. vm_compute. reflexivity. Qed.
 Example C20_ex_negative_length_rejected : fst (stream_decode default_limits (mkD neg_length_stream false)) = SErr.
+Proof. vm_compute. reflexivity. Qed.
+Example C20_ex_straddle :   (* the blank line sits on bytes 7 and 8, across the first 8-byte round *)
+  fst (read_until_go ru_fuel 0 8 64 (mkD (repeat 97 7 ++ [10; 10] ++ repeat 98 20) false)) = RFound (repeat 97 7 ++ [10; 10]).
 Proof. vm_compute. reflexivity. Qed.
 Example C20_ex_limit : fst (read_until ru_fuel 16 64 (mkD (repeat 97 200) false)) = RTooBig.
 Proof. vm_compute. reflexivity. Qed.
